@@ -330,6 +330,23 @@ func scanBool(t, f string) func(d []byte, o int) expect {
 	}
 }
 
+func scanOptGroup(d []byte, o int) expect { // a(?:=(b+))?, value = group 1 ("" when the group takes no part)
+	n := len(d)
+	if o >= n || d[o] != 'a' {
+		return expect{}
+	}
+	if o+2 < n+0 && d[o+1] == '=' && d[o+2] == 'b' {
+		i := o + 2
+		for i < n && d[i] == 'b' {
+			i++
+		}
+		return expect{ok: true, end: i, val: string(d[o+2 : i])}
+	}
+	return expect{ok: true, end: o + 1, val: ""}
+}
+
+func scanNever(d []byte, o int) expect { return expect{} }
+
 func scanPrefix(s string, val any) func(d []byte, o int) expect {
 	return func(d []byte, o int) expect {
 		if bytes.HasPrefix(d[o:], []byte(s)) {
@@ -527,6 +544,10 @@ var literalParsers = []litParser{
 	{name: "Regexp(a(b*)c,1)", p: terminal.Regexp(nil, "ABC", "abc", "a(b*)c", 1), symbols: []string{"a", "b", "c", "1", " "}, maxLen: [2]int{5, 6}, scan: scanABC},
 	{name: "Regexp(foo|ba+r,0)", p: terminal.Regexp(nil, "KW", "keyword", "foo|ba+r", 0), symbols: []string{"foo", "bar", "a", "f", "b", "r", "-"}, maxLen: [2]int{5, 6}, scan: scanFooBar},
 	{name: "Regexp(^foo|ba+r,0)", p: terminal.Regexp(nil, "KW", "keyword", "^foo|ba+r", 0), symbols: []string{"foo", "bar", "a", "f", "b", "r", "-"}, maxLen: [2]int{4, 5}, scan: scanFooBar},
+	{name: "Regexp(a(?:=(b+))?,1)", p: terminal.Regexp(nil, "KV", "key", "a(?:=(b+))?", 1), symbols: []string{"a", "=", "b", " "}, maxLen: [2]int{5, 6}, scan: scanOptGroup},
+	// runes that have no UTF-8 encoding can never be read from a file, whatever bytes stand there
+	{name: `Rune(0xD800)`, p: terminal.Rune(0xD800), symbols: []string{"\uFFFD", "\xed\xa0\x80", "\xed", "a"}, maxLen: [2]int{3, 4}, scan: scanNever},
+	{name: `Rune(0x110000)`, p: terminal.Rune(0x110000), symbols: []string{"\uFFFD", "\xf4\x90\x80\x80", "\xf4", "a"}, maxLen: [2]int{3, 4}, scan: scanNever},
 	{name: "TimeDuration", p: terminal.TimeDuration(nil), symbols: []string{"0", "1", ".", "h", "m", "s", "n", "u", "µ", "μ", "-", "+", " "}, maxLen: [2]int{5, 6}, scan: scanDuration, family: durationFamily},
 }
 
@@ -781,7 +802,7 @@ func init() {
 	explore.Register(&explore.Check{
 		ID:    "C08",
 		Level: "model_checking",
-		Rule: "for each of 20 literal-parser configurations: every byte string of 0..N symbols over that literal's alphabet (syntax characters + the bytes that drive its edge branches, incl. multi-byte runes, invalid UTF-8, CR/LF) parsed at EVERY offset, plus complete boundary families (int64/uint64 edges in decimal/hex/octal, float64 overflow/underflow exponents, every escape form incl. surrogates and out-of-range code points, durations around +-2^63 ns); " +
+		Rule: "for each of 23 literal-parser configurations: every byte string of 0..N symbols over that literal's alphabet (syntax characters + the bytes that drive its edge branches, incl. multi-byte runes, invalid UTF-8, CR/LF) parsed at EVERY offset, plus complete boundary families (int64/uint64 edges in decimal/hex/octal, float64 overflow/underflow exponents, every escape form incl. surrogates and out-of-range code points, durations around +-2^63 ns); " +
 			"plus every ordered pair of five regexp-based parsers called A,B,A,B on one reader at every offset of every string of <= 3 symbols; oracle: hand-written scanner of the documented syntax + strconv/time/utf8 conversions; state = one byte string; transition = one Parse call at one offset; non-trivial = a string in which at least one offset holds an accepted literal",
 		Assume: []string{
 			"the documented syntax of each literal is the one its parser's pattern states (re-implemented by hand in mc/ix/c08.go); strconv.ParseInt/ParseFloat, time.ParseDuration and unicode/utf8 are the conversion oracles",
